@@ -60,7 +60,7 @@ def main():
                 tests = "tests:" + ("pass" if t.returncode == 0 else "FAIL")
             t0 = time.time()
             # VERIF_REPO != /repo: the runner writes evidence and replays for the scratch tree under .work/, never under evidence/
-            env = dict(os.environ, VERIF_REPO=d)
+            env = dict(os.environ, VERIF_REPO=d, VERIF_STOP_AT_FIRST_VIOLATION="1")
             if jobs > 1:
                 env["VERIF_JOBS"] = str(max(4, 16 // jobs + 2))
             c = subprocess.run([os.path.join(ROOT, "check"), prop, tier], cwd=ROOT, env=env, capture_output=True, text=True)
